@@ -124,7 +124,10 @@ def oracle(line: str, out: str, extra: dict):
             exp = "err ValueError"
         else:
             ia = int(a, 2)
-            v = ((ia << k) & ((1 << n) - 1)) if op in ("shl", "ishl") else (ia >> k)
+            if k >= n:
+                v = 0                                   # every bit shifted out (also keeps huge counts cheap)
+            else:
+                v = ((ia << k) & ((1 << n) - 1)) if op in ("shl", "ishl") else (ia >> k)
             exp = "ok " + format(v, "0%db" % n)
     if out != exp:
         return f"expected {exp} from integer arithmetic, got {out}"
@@ -187,6 +190,14 @@ def _gen(rng, tier: str):
                     yield SEP.join(["C16", op, wire(a), str(k), rng.choice(CLASS_NAMES), "-"])
                 for op in ("ishl", "ishr"):
                     yield SEP.join(["C16", op, wire(a), str(k), rng.choice(MUTABLE), "-"])
+    # byte-multiple shift counts on lengths that are not whole bytes, and very large counts ("all counts beyond len")
+    for n in list(range(1, 26)) + [31, 33, 63, 65]:
+        a = rand_bits(rng, n)
+        for k in (8, 16, 24, 32, 64, 2 ** 31, 2 ** 63 - 1, 2 ** 63, 2 ** 64 + 5, 10 ** 30):
+            for op in ("shl", "shr"):
+                yield SEP.join(["C16", op, wire(a), str(k), rng.choice(CLASS_NAMES), "-"])
+            for op in ("ishl", "ishr"):
+                yield SEP.join(["C16", op, wire(a), str(k), rng.choice(MUTABLE), "-"])
     # random, word-boundary lengths
     N = 40000 if big else 3000
     lens = BOUNDARY_LENGTHS + [130, 1023, 1024, 1025]
